@@ -36,6 +36,15 @@ HAND = [
     "function f(n) { var x; x = 1; if (n) { x = 2; } else { if (n == 3) { x = 3; } } return x; }",
     "template T(n) { signal input a; signal output b; var s = 0; for (var i = 0; i < n; i++) { s += a; } b <== s; }",
     "template T(n) { signal input a; signal output b; if (n == 1) { b <== a; } else { b <== a * a; } }",
+    # declarations with several symbols (one initialization block: declarations and substitutions interleaved in source order)
+    "function f(n) { var a = n + 1, b = a * 2; return b; }",
+    "function f(n) { var a = 1, b, c = a + n; b = c; return b; }",
+    "function f(n) { for (var i = 0, j = 1; i < n; i++) { n += j; } return n; }",
+    "template T(n) { signal input x; signal output s <== x, t <== x * x; }",
+    "template T(n) { signal input x; signal output o; component c = U(), d = U(); c.a <== x; d.a <== c.b; o <== d.b; }",
+    # an else branch that itself ends in control flow, with code after the join
+    "function f(a, b) { var r = 0; if (a == 1) { r = 1; } else if (b == 1) { r = 2; } r += 10; return r; }",
+    "function f(a, b) { var r = 0; while (a < 3) { if (a == 1) { r = 1; } else { while (b < 2) { b++; } } a++; } return r; }",
 ]
 
 
@@ -50,6 +59,12 @@ def observe(srcs, curve="BN254"):
     return out
 
 
+def stmt_key(m, kind, name):
+    """the Lean driver's `stmtKey`: the source range refined by the statement kind and the declared / assigned name"""
+    tag = 0 if kind == 0 else sum(ord(c) for c in name) % 1000
+    return "%s-%d" % (m[1], int(m[2]) * 10000 + kind * 1000 + tag)
+
+
 def canon_blocks(cfg):
     """the same canonical string as the Lean driver's `showBlocks`, from the real CFG dump"""
     parts = []
@@ -59,8 +74,12 @@ def canon_blocks(cfg):
             body = st[1]
             m = body[1]
             if body[0] == "if":
-                sts.append("i%s-%s:%s:%s" % (m[1], m[2], body[3], body[4]))
+                sts.append("i%s:%s:%s" % (stmt_key(m, 0, ""), body[3], body[4]))
+            elif body[0] == "decl" and body[2]:
+                sts.append("s" + stmt_key(m, 1, body[2][0][1]))
+            elif body[0] == "sub":
+                sts.append("s" + stmt_key(m, 2, body[2][1]))
             else:
-                sts.append("s%s-%s" % (m[1], m[2]))
+                sts.append("s" + stmt_key(m, 0, ""))
         parts.append("%s;%s;%s;%s" % (b[2], ",".join(b[3]) or "-", ",".join(b[4]) or "-", ",".join(sts)))
     return "|".join(parts)
